@@ -115,6 +115,15 @@ class Result:
                                          detail="construct outside the analysed subset was needed by this rule (fail closed)"))
 
 
+def new_violations(res):
+    """violations of this run that known_findings.json does not list as open findings"""
+    keys = set()
+    for k in load_known():
+        if k.get("status") == "finding" and k["property"] == res.prop:
+            keys.update(([k["key"]] if "key" in k else []) + list(k.get("keys", [])))
+    return [v for v in res.violations if v.key() not in keys]
+
+
 def finish(res, tier, seed, t0, extra_cov=None):
     """print report lines, write evidence and replay files, return exit code"""
     os.makedirs(EVIDENCE_DIR, exist_ok=True)
@@ -164,6 +173,7 @@ def finish(res, tier, seed, t0, extra_cov=None):
         "new_violations": [v.to_json() for v in new][:50],
         "solver": dict(solver.STATS),
         "notes": res.notes,
+        "controls": getattr(res, "controls", None),
         # generic keys, measured: every obligation is a distinct case (site x path x goal)
         "evaluations": max(res.obligations, 1),
         "distinct_nontrivial": res.distinct_count(),
